@@ -292,6 +292,9 @@ class _RealFinder:
             last_dot_position = word_start
             if self.code[word_start] != ".":
                 last_dot_position = self._find_last_non_space_char(word_start - 1)
+            if self.code[last_dot_position] != ".":
+                # nothing is dotted in front of the cursor: `foo |`, `f(x)|`
+                return ("", "", offset)
             last_char_position = self._find_last_non_space_char(last_dot_position - 1)
             if self.code[word_start].isspace():
                 word_start = offset
